@@ -130,6 +130,13 @@ def mon_flat_memory(case, obs):
         f = t.split(':')
         k = f[0]
         o = out[i]
+        if k == 'wn':
+            a, n = int(f[1], 16), int(f[2], 16)
+            if n > 0:
+                e = expect_access(flat, 'wb', a, (n - 1) & 255)
+                if e is not None and e != o:
+                    return 'op %d (%s): flat byte-array reference expects %s, implementation gave %s' % (i, t, e, o)
+            continue
         if k == 'lx':
             # a host load allowed to run past the end of its device (a panic by design): the bytes that fit are stored
             a = int(f[1], 16)
@@ -220,6 +227,14 @@ def mon_video(case, obs):
             e = expect_access(flat, k, a, v)
             if o == 'ok' and any(start <= a + j < start + 0x19000 for j in range(width)):
                 dirty = True
+        elif k == 'wn':
+            a, n = int(f[1], 16), int(f[2], 16)
+            reg = (flat.get('vid', 0) << 8) | flat.get('vid', 1)
+            start = 0x700000 + 4 * reg
+            if n > 0:
+                expect_access(flat, 'wb', a, (n - 1) & 255)
+                if o == 'ok' and start <= a < start + 0x19000:
+                    dirty = True
         elif k == 'vd':
             if o != 'd%d' % (1 if dirty else 0):
                 return 'op %d: dirty indication %s, but writes into the window since the last fetch: %s' % (i, o, dirty)
@@ -378,6 +393,12 @@ def mon_reset(case, obs):
                 nv[a - 0x600000] = int(f[2], 16) & 0xff
         elif k == 'ns':
             data = lcg_bytes(int(f[1], 16), int(f[2], 16))
+            for j, b in enumerate(data[:0x2000]):
+                nv[j] = b
+            if len(data) >= 0x2000:
+                nv_known = True
+        elif k == 'nx':
+            data = bytes.fromhex(f[1])
             for j, b in enumerate(data[:0x2000]):
                 nv[j] = b
             if len(data) >= 0x2000:
